@@ -30,3 +30,13 @@ Theorem C08_no_error_means_all_bytes_delivered : forall dest r,
   write_error (write_to dest r) = false -> exists t, r = WOk t /\ bytes_delivered (write_to dest r) = t.
 Proof. exact no_error_means_everything_delivered. Qed.
 Print Assumptions C08_no_error_means_all_bytes_delivered.
+
+(* the HTTP create endpoint hands the request body itself to the reader (per-run obligation: the handler is
+   the text the server model was written from - no limiting or buffering wrapper that could turn an over-long
+   or failing body into a clean end of file); stream l6-http posts over-long bodies and checks that every
+   marked segment of an accepted body is in the stored message *)
+From WireGen Require Handlers.
+Theorem C08_create_endpoint_reads_the_body_itself :
+  existsb (fun p => String.eqb (fst p) "createFile" && snd p) Handlers.handler_recognised = true.
+Proof. vm_compute. reflexivity. Qed.
+Print Assumptions C08_create_endpoint_reads_the_body_itself.
